@@ -370,6 +370,22 @@ class CSession(KSession):
         return self.crecord('(CSetCorr %s %d %s)' % (rt, a, bt), ('cset_corr', r, a, b),
                             lambda: self.core.set_correlation(r, z, ob), 'unit')
 
+    def cget_corr(self, a, b=None, cov=False):
+        """core.get_correlation(z, arg2) / core.get_covariance(z, arg2) with z the complex object in slot a;
+        b: None | ('c', i) | ('r', i) | ('n', v)"""
+        z = self.cobj(a)
+        if z is None or not self._args_ok(b): return None
+        ob = None if b is None else self._arg(b)
+        if cov:
+            for o in (z.real, z.imag) + ((ob.real, ob.imag) if isinstance(ob, self.UC) else (ob,) if isinstance(ob, self.UR) else ()):
+                if o.is_elementary: self.extra.append(pow_entry(o._node.u, 2))
+        fn = self.core.get_covariance if cov else self.core.get_correlation
+        def th():
+            r = fn(z, ob)
+            return tuple(float(v) for v in r) if isinstance(r, tuple) else float(r)
+        bt = 'None' if b is None else '(Some %s)' % self._argterm(b)
+        return self.crecord('(CGetCorr %s %d %s)' % (cbool(cov), a, bt), ('cget_corr', a, b, cov), th, 'val')
+
     def _sens_ok(self, x):
         """the model does not cover repr() of a complex argument (complex dof): skip those"""
         o = self._arg(x)
@@ -485,6 +501,7 @@ def run_pyops(pyops, ctx_id):
         elif k == 'cbin': s.cbin(op[1], arg(op[2]), arg(op[3]))
         elif k == 'cresult': s.cresult(op[1], label=op[2])
         elif k == 'cread': s.cread(op[1], op[2])
+        elif k == 'cget_corr': s.cget_corr(op[1], None if op[2] is None else arg(op[2]), op[3])
         elif k == 'cset_corr': s.cset_corr(tup(op[1]) if isinstance(op[1], list) else op[1], op[2], None if op[3] is None else arg(op[3]))
         elif k == 'csens': s.csens(arg(op[1]), arg(op[2]))
         elif k == 'cucomp': s.cucomp(arg(op[1]), arg(op[2]))
